@@ -104,7 +104,7 @@ class Gen:
             if r.random() < 0.7:
                 return "ok"
             self.stats["faults"] += 1
-            return ",".join(r.choice(["ok", "fail", "fail", "tmo"]) for _ in range(3))
+            return ",".join(r.choice(["ok", "fail", "fail", "tmo", "tmn"]) for _ in range(r.choice([3, 3, 4])))
         if r.random() < 0.75:
             return "ok"
         self.stats["faults"] += 1
@@ -319,7 +319,7 @@ def sc_faults(r):
     ops = ["cc+ c1 %s - %d %s - 1 1" % (tok4(a, l), h1, sel), "dc", "pc " + r.choice(["ok", "fail", "aerr"]), "tick", "pc ok", "dc", "pc ok"]
     for i in range(1, 4):
         ops += ["n+ n%d %s -" % (i, good), "dn",
-                "pn " + r.choice(["fail,fail,fail", "tmo,tmo,tmo", "fail,tmo,ok", "tmo,fail,fail", "fail,ok", "ok"]),
+                "pn " + r.choice(["fail,fail,fail", "tmo,tmo,tmo", "fail,tmo,ok", "tmo,fail,fail", "fail,ok", "ok", "tmn,fail,fail", "fail,tmn,tmn", "tmo,fail,fail,fail", "tmn,tmn,tmn,fail"]),
                 "tick", "pn ok", "dn", "pn ok"]
     ops += ["n- n2", "dn", "cc- c1", "dc", "pc ok", "tick", "pc ok"]
     return ops
